@@ -376,6 +376,7 @@ theorem run_sound (hinj : ∀ x y, H x = H y → x = y) (hlen : ∀ x, (H x).len
           rw [hh2]; exact this
 
 
+/- VACUITY AUDIT: no longer an obligation of the check. assumes injectivity of H : Bytes -> Bytes on ALL byte strings together with 32-byte outputs: unsatisfiable (pigeonhole, Vacuity.C09.hinj_hlen_unsatisfiable) - the statement is vacuous. Replaced by: Vacuity.C09.C09_stm_sound_witness. -/
 /-- **Soundness of the STM batch-path verifier** (model level).
 If the run over the claimed `(index, leaf pre-image)` pairs ends in the committed root,
 every claimed pre-image is the committed leaf at the claimed index. -/
